@@ -249,7 +249,8 @@ pub mod verif {
   }
 
   /// Takes (and clears) the log of induction-variable eliminations performed so far.
-  pub fn take_iv_elimination_log() -> Vec<(u8, Option<i32>)> {
+  pub fn take_iv_elimination_log() -> Vec<super::loop_induction_variable_elimination::verif::Entry>
+  {
     std::mem::take(&mut *super::loop_induction_variable_elimination::verif::LOG.lock().unwrap())
   }
 
